@@ -83,6 +83,22 @@ theorem C19_seq_set (sp : Spec) (m : SMap) (sc : Scope) (name : String) (v : JV)
   cases h1
   exact SMap.get_set_same m name _
 
+/-- The model is a pure function of (spec, storage, operation) – an `Operation`
+    is never changed by `coerce_value` / `apply`, and what is coerced for the
+    server callbacks is what `apply` stores (`C19_seq_set`).  In particular a
+    SET can be repeated: applying the same SET to its own result changes
+    nothing.  (That the IMPLEMENTATION does not break this by mutating its
+    argument – e.g. the nested `_tname` – is checked on the real code by the
+    `oracle:op-mutated`, `oracle:apply-not-repeatable` and `oracle:dbview-differs`
+    oracles; nested object fields themselves are outside this model.) -/
+theorem C19_seq_set_repeat (sp : Spec) (m m' : SMap) (sc : Scope) (name : String) (v : JV)
+    (h : apply sp m ⟨.set, sc, name, v⟩ = .ok m') :
+    apply sp m' ⟨.set, sc, name, v⟩ = .ok m' := by
+  obtain ⟨s, val, hs, hc, rfl⟩ := apply_set_inv sp m m' sc name v h
+  rw [apply_set sp _ sc name v s val hs hc]
+  unfold setValue
+  rw [SMap.set_set_same]
+
 /-- RESET removes the entry: in this layer alone the setting reads as its default again. -/
 theorem C19_seq_reset (sp : Spec) (m m' : SMap) (sc : Scope) (name : String) (v : JV)
     (s : Setting) (hs : sp.get name = some s) (hwf : m.WF)
